@@ -203,6 +203,17 @@ def struct_functions(funcs, types=None, by_value=False):
                 yield f, rt, ins[0]
 
 
+_MIR_TEXT = {}
+
+
+def child_exists(ses, fs, rt, names):
+    """is the child compiled in under this feature set? (some builder / accessor of it is called somewhere in the crate's MIR)"""
+    if fs not in _MIR_TEXT:
+        _MIR_TEXT[fs] = open(ses.mir_path("lib", fs)).read()
+    txt = _MIR_TEXT[fs]
+    return any(f"{rt}::with_{n}" in txt or f"{rt}::{n}(" in txt for n in names)
+
+
 def analyse_structs(ses, rep, fs, sigs):
     flagged = []
     funcs = ses.mir("lib", fs)
@@ -322,6 +333,8 @@ def analyse_structs(ses, rep, fs, sigs):
                         if ty_ != rt or slot_ in sets or re.search(r"TokenReference|ContainedSpan", wty):
                             continue
                         field_ = sigs.get("__set__", {}).get((rt, slot_), slot_)
+                        if not child_exists(ses, fs, rt, [slot_] + sigs.get("__get__", {}).get((rt, field_), [])):
+                            continue        # the child does not exist under this feature set (cfg-gated field of full_moon: nothing in the MIR names it)
                         if field_ in sets or any(sigs.get("__set__", {}).get((rt, s2), s2) == field_ for s2 in sets):
                             continue
                         getters_ = [slot_] + sigs.get("__get__", {}).get((rt, field_), [])
